@@ -2063,7 +2063,8 @@ fn competing_commitments_script(rng: &mut StdRng) -> Value {
 	let mut chain: Vec<Value> = vec![json!({"op":"mine","who":[first],"n":1,"prefer":"old"})];
 	if rng.gen_bool(0.5) { chain.push(json!({"op":"mine","who": if rng.gen_bool(0.5) { json!("none") } else { json!([first]) },"n":rng.gen_range(1..4)})); }
 	chain.push(json!({"op":"unwind","target":"commit","extra":rng.gen_range(0..2),"keep":rng.gen_bool(0.5)}));
-	if rng.gen_bool(0.3) { chain.push(json!({"op":"mine","who":"none","n":rng.gen_range(1..3)})); }
+	// (one block in which nothing confirms: a commitment the network forgot is announced again)
+	chain.push(json!({"op":"mine","who":"none","n":rng.gen_range(1..3)}));
 	chain.push(json!({"op":"mine","who":[second],"n":1,"prefer":"old"}));
 	if rng.gen_bool(0.3) { chain.push(json!({"op":"reload","node":rng.gen_range(0..2)})); }
 	if rng.gen_bool(0.3) { for n in 0..2 { chain.push(json!({"op":"rebroadcast","node":n})); } }
